@@ -301,3 +301,171 @@ theorem sub_name_mem {σ : Type} (s : Spec) (act : σ → Opt → ArgV → Optio
     · split at h <;> cases h
 
 end Cnfgen.ToolsL
+
+namespace Cnfgen.ToolsL
+open Cnfgen Cnfgen.IO Cnfgen.Cli.ToolArgs Cnfgen.Cli.Tools
+
+/-! ### a command line that starts with an exact option string -/
+
+theorem classify_exact (s : Spec) (t : String) (o : Opt) (c : Char) (r : List Char) (ht : t.toList = c :: r)
+    (hc : c = '-') (hf : s.find t.toList = some o) : Cli.ToolArgs.classify s t = some (.opt (some o) t.toList none) := by
+  unfold Cli.ToolArgs.classify
+  simp only [ht] at hf ⊢
+  subst hc
+  simp [hf]
+
+theorem classify_plain (s : Spec) (t : String) (h : t.toList.head? ≠ some '-') :
+    Cli.ToolArgs.classify s t = some .arg := by
+  unfold Cli.ToolArgs.classify
+  cases ht : t.toList with
+  | nil => rfl
+  | cons c r =>
+    rw [ht] at h
+    have : c ≠ '-' := by simpa using h
+    simp [this]
+
+theorem chain_noarg (s : Spec) (f : Nat) (o : Opt) (ostr : List Char) (next : Option String) (h : o.kind ≠ .one) :
+    chain s (f + 1) o ostr none next = some ([(o, .flag)], false) := by
+  simp [chain, h]
+
+theorem chain_onearg (s : Spec) (f : Nat) (o : Opt) (ostr : List Char) (a : String) (h : o.kind = .one) :
+    chain s (f + 1) o ostr none (some a) = some ([(o, argOf a.toList)], true) := by
+  simp [chain, h]
+
+theorem argOf_plain (a : String) (h : a.toList.head? ≠ some '-') : argOf a.toList = .val a := by
+  unfold argOf
+  have : a.toList ≠ ['-', '-'] := by intro h'; rw [h'] at h; simp at h
+  simp [this]
+
+theorem scan_cons {σ : Type} (s : Spec) (act : σ → Opt → ArgV → Option σ) (fuel : Nat) (t : String) (c : TokC)
+    (rest : List (String × TokC)) (st : σ) (ex : Bool) :
+    scan s act (fuel + 1) ((t, c) :: rest) st ex =
+      match c with
+      | .arg =>
+        (match s.subs with
+         | some ch => takeSub ch t (rest.map (·.1)) st ex
+         | none => scan s act fuel rest st true)
+      | .dashdash =>
+        (match s.subs, rest with
+         | some ch, _ :: _ => takeSub ch t (rest.map (·.1)) st ex
+         | _, _ => .ok (st, true))
+      | .opt none _ _ => scan s act fuel rest st true
+      | .opt (some o) ostr e =>
+        match chain s (t.length + 2) o ostr e (nextArg rest) with
+        | none => .error .error
+        | some (acts, consumed) =>
+          match runActs act acts st with
+          | .error x => .error x
+          | .ok st' => scan s act fuel (if consumed then rest.drop 1 else rest) st' ex := by
+  cases c <;> first | rfl | (rename_i o _ _; cases o <;> rfl)
+
+/-- more fuel than tokens changes nothing -/
+theorem scan_fuel {σ : Type} (s : Spec) (act : σ → Opt → ArgV → Option σ) :
+    ∀ (f1 f2 : Nat) (toks : List (String × TokC)) (st : σ) (ex : Bool),
+      toks.length ≤ f1 → toks.length ≤ f2 → scan s act f1 toks st ex = scan s act f2 toks st ex
+  | _, _, [], st, ex, _, _ => by rw [scan, scan]
+  | 0, _, _ :: _, _, _, h, _ => by simp at h
+  | _ + 1, 0, _ :: _, _, _, _, h => by simp at h
+  | f1 + 1, f2 + 1, (t, c) :: rest, st, ex, h1, h2 => by
+    have l1 : rest.length ≤ f1 := by simp at h1; omega
+    have l2 : rest.length ≤ f2 := by simp at h2; omega
+    rw [scan_cons, scan_cons]
+    cases c with
+    | arg =>
+      simp only
+      cases s.subs with
+      | some ch => rfl
+      | none => exact scan_fuel s act f1 f2 rest st true l1 l2
+    | dashdash => rfl
+    | opt o ostr e =>
+      cases o with
+      | none => exact scan_fuel s act f1 f2 rest st true l1 l2
+      | some o =>
+        simp only
+        generalize chain s (t.length + 2) o ostr e (nextArg rest) = ch
+        cases ch with
+        | none => rfl
+        | some p =>
+          obtain ⟨acts, consumed⟩ := p
+          simp only
+          cases runActs act acts st with
+          | error x => rfl
+          | ok st' =>
+            simp only
+            cases consumed
+            · exact scan_fuel s act f1 f2 rest st' ex l1 l2
+            · simp only [if_true]
+              apply scan_fuel s act f1 f2 (rest.drop 1) st' ex <;> simp <;> omega
+
+section head
+variable {σ : Type} (s : Spec) (act : σ → Opt → ArgV → Option σ)
+
+/-- a flag written as one of its exact option strings at the head of the command line does its own action and
+nothing else: the rest is parsed as it would be alone, from the updated namespace -/
+theorem parse_flag_head (t : String) (o : Opt) (c : Char) (r : List Char) (ht : t.toList = c :: r) (hc : c = '-')
+    (hne : t ≠ "--") (hf : s.find t.toList = some o) (hk : o.kind = .flag) (argv : List String) (st : σ) :
+    parse s act (t :: argv) st =
+      match act st o .flag with
+      | none => .error .error
+      | some st' => parse s act argv st' := by
+  unfold parse
+  rw [classifyAll_cons s t argv hne, classify_exact s t o c r ht hc hf]
+  cases hcl : classifyAll s argv with
+  | none => cases act st o .flag <;> rfl
+  | some toks =>
+    simp only [List.length_cons]
+    rw [scan_cons]
+    simp only
+    rw [chain_noarg s _ o _ _ (by rw [hk]; decide)]
+    simp only [runActs, hk]
+    cases act st o .flag with
+    | none => rfl
+    | some st' => simp only [reduceCtorEq, if_false, Bool.false_eq_true]
+
+/-- `-h` / `--help` at the head: the help, whatever follows — unless a later token is an ambiguous abbreviation
+(that error is raised while the tokens are classified, before any action) -/
+theorem parse_help_head (t : String) (o : Opt) (c : Char) (r : List Char) (ht : t.toList = c :: r) (hc : c = '-')
+    (hne : t ≠ "--") (hf : s.find t.toList = some o) (hk : o.kind = .help) (argv : List String) (st : σ) :
+    parse s act (t :: argv) st = if (classifyAll s argv).isSome then .error .help else .error .error := by
+  unfold parse
+  rw [classifyAll_cons s t argv hne, classify_exact s t o c r ht hc hf]
+  cases hcl : classifyAll s argv with
+  | none => rfl
+  | some toks =>
+    simp only [List.length_cons]
+    rw [scan_cons]
+    simp only
+    rw [chain_noarg s _ o _ _ (by rw [hk]; decide)]
+    simp [runActs, hk]
+
+/-- an option with one argument written as an exact option string followed by a token that does not start with `-`:
+the token is converted and stored, the rest is parsed as it would be alone -/
+theorem parse_one_head (t a : String) (o : Opt) (c : Char) (r : List Char) (ht : t.toList = c :: r) (hc : c = '-')
+    (hne : t ≠ "--") (hf : s.find t.toList = some o) (hk : o.kind = .one) (ha : a.toList.head? ≠ some '-')
+    (argv : List String) (st : σ) :
+    parse s act (t :: a :: argv) st =
+      match act st o (.val a) with
+      | none => .error .error
+      | some st' => parse s act argv st' := by
+  have hane : a ≠ "--" := by intro h; rw [h] at ha; simp at ha
+  unfold parse
+  rw [classifyAll_cons s t _ hne, classify_exact s t o c r ht hc hf, classifyAll_cons s a _ hane,
+    classify_plain s a ha]
+  cases hcl : classifyAll s argv with
+  | none => cases act st o (.val a) <;> rfl
+  | some toks =>
+    simp only [List.length_cons]
+    rw [scan_cons]
+    simp only
+    simp only [nextArg]
+    rw [chain_onearg s _ o _ a hk, argOf_plain a ha]
+    simp only [runActs, hk, reduceCtorEq, if_false]
+    cases act st o (.val a) with
+    | none => rfl
+    | some st' =>
+      simp only [if_true, List.drop_one, List.tail_cons]
+      rw [scan_fuel s act (toks.length + 1 + 1) (toks.length + 1) toks st' false (by omega) (by omega)]
+
+end head
+
+end Cnfgen.ToolsL
